@@ -17,8 +17,13 @@ type printer struct {
 	p      *Prog
 	buf    bytes.Buffer
 	pkg    int
+	file   int // file of the package (Func.File)
 	nlabel int // labels are numbered per file in print order
 }
+
+// at: the position of the next byte: (rank of the file in file-name order, offset); remapped to the order of
+// the loaded FileSet by Prog.posMap when the Coq term is printed
+func (pr *printer) at() int { return fileRank[pr.file]<<posShift | pr.buf.Len() }
 
 // usesErrors: some body of package pk calls errors.New (importing "errors" makes packages.Load parse and
 // type-check package runtime from source, ~1 s per program: only programs that need it pay for it)
@@ -100,6 +105,26 @@ func varsFile(p int) string {
 	return fmt.Sprintf("package %s\n\nvar Sentinel error = &E{}\n", pkgName(p))
 }
 
+// header of a file other than the main one: the same imports (kept used), no declarations
+func extraHeader(p int, useB bool, useErrors bool) string {
+	var b strings.Builder
+	fmt.Fprintf(&b, "package %s\n\n", pkgName(p))
+	if useErrors {
+		b.WriteString("import \"errors\"\n\n")
+	}
+	if p == pkgA && useB {
+		fmt.Fprintf(&b, "import %q\n\n", pkgPath(pkgB))
+	}
+	if useErrors {
+		b.WriteString("var _ = errors.New\n")
+	}
+	if p == pkgA && useB {
+		b.WriteString("var _ b.T\n")
+	}
+	b.WriteString("\n")
+	return b.String()
+}
+
 // files prints the user packages; positions are stored in the IR nodes.
 func (p *Prog) files() map[string]string {
 	out := map[string]string{}
@@ -108,15 +133,40 @@ func (p *Prog) files() map[string]string {
 		if pk == pkgB && !p.UseB {
 			continue
 		}
-		pr := &printer{p: p, pkg: pk}
-		pr.buf.WriteString(prelude(pk, p.UseB, p.usesErrors(pk)))
-		for _, f := range p.Funcs {
-			if f.Pkg != pk || f.IsLit || f.Iface || f.Prelude {
-				continue
+		for k := 0; k < nFiles; k++ {
+			pr := &printer{p: p, pkg: pk, file: k}
+			if k == 0 {
+				pr.buf.WriteString(prelude(pk, p.UseB, p.usesErrors(pk)))
+			} else {
+				pr.buf.WriteString(extraHeader(pk, p.UseB, p.usesErrors(pk)))
 			}
-			pr.fn(f)
+			n := 0
+			for _, c := range p.PkgCalls {
+				if c.Pkg != pk || clampFile(c.File) != k || c.F < 0 || c.F >= len(p.Funcs) {
+					continue
+				}
+				f := p.Funcs[c.F]
+				if f.Pkg != pk || f.IsLit || f.Iface || f.Prelude || f.Method {
+					continue
+				}
+				n++
+				if len(f.Res) == 0 {
+					fmt.Fprintf(&pr.buf, "func init() { %s(0, nil, nil) }\n\n", f.Name)
+				} else {
+					fmt.Fprintf(&pr.buf, "var %s = %s(0, nil, nil)\n\n", strings.TrimSuffix(strings.Repeat("_, ", len(f.Res)), ", "), f.Name)
+				}
+			}
+			for _, f := range p.Funcs {
+				if f.Pkg != pk || f.IsLit || f.Iface || f.Prelude || clampFile(f.File) != k {
+					continue
+				}
+				n++
+				pr.fn(f)
+			}
+			if k == 0 || n > 0 {
+				out[pkgName(pk)+"/"+fileName(pk, k)] = pr.buf.String()
+			}
 		}
-		out[pkgName(pk)+"/"+pkgName(pk)+".go"] = pr.buf.String()
 		out[pkgName(pk)+"/vars.go"] = varsFile(pk)
 	}
 	return out
@@ -170,7 +220,7 @@ func (pr *printer) stmt(s *Stmt) {
 		w.WriteString(s.Raw)
 		w.WriteString("\n")
 	case "assign":
-		s.pos = w.Len()
+		s.pos = pr.at()
 		for i, l := range s.Lhs {
 			if i > 0 {
 				w.WriteString(", ")
@@ -181,13 +231,13 @@ func (pr *printer) stmt(s *Stmt) {
 		pr.exprs(s.Rhs)
 		w.WriteString("\n")
 	case "return":
-		s.pos = w.Len()
+		s.pos = pr.at()
 		w.WriteString("return")
 		if !s.Bare {
 			w.WriteString(" ")
 			pr.exprs(s.Rhs)
 		}
-		s.end = w.Len()
+		s.end = pr.at()
 		w.WriteString("\n")
 	case "group":
 		// A labeled statement `L7: for … {` is one more grouping node around the statement (ast.LabeledStmt):
@@ -287,7 +337,7 @@ func (pr *printer) exprs(es []*Expr) {
 
 func (pr *printer) expr(e *Expr) {
 	w := &pr.buf
-	e.pos = w.Len()
+	e.pos = pr.at()
 	switch e.K {
 	case "val":
 		w.WriteString(e.Src)
@@ -340,6 +390,18 @@ type coqEmitter struct {
 	pkg int
 }
 
+// pos: a recorded position in the order of the loaded FileSet (Prog.ranks: per package, file rank by name ->
+// rank by base offset; nil = files were added to the FileSet in name order)
+func (c *coqEmitter) pos(at int) int {
+	rk, off := at>>posShift, at&(1<<posShift-1)
+	if m := c.p.ranks[c.pkg]; m != nil {
+		if r, ok := m[rk]; ok {
+			rk = r
+		}
+	}
+	return rk<<posShift | off
+}
+
 func (c *coqEmitter) alt(e *Expr) string {
 	txt, isConst := e.text()
 	x := "XOther"
@@ -353,7 +415,7 @@ func (c *coqEmitter) alt(e *Expr) string {
 	if isConst {
 		ty = "TUntyped"
 	}
-	return fmt.Sprintf("(mk_alt %s %s %s %s %d %d)", core.Hex(txt), core.CoqBool(isConst), ty, x, c.pkg, e.pos)
+	return fmt.Sprintf("(mk_alt %s %s %s %s %d %d)", core.Hex(txt), core.CoqBool(isConst), ty, x, c.pkg, c.pos(e.pos))
 }
 
 func rdeclCoq(r Res) string {
@@ -391,7 +453,7 @@ func (c *coqEmitter) expr(e *Expr) string {
 		for _, a := range e.Args {
 			as = append(as, c.expr(a))
 		}
-		return fmt.Sprintf("(ECall (mk_call %s %s %s %s %d %d) %s)", core.CoqBool(e.IsSig), core.CoqList(rs), core.CoqList(pe), tg, c.pkg, e.pos, core.CoqList(as))
+		return fmt.Sprintf("(ECall (mk_call %s %s %s %s %d %d) %s)", core.CoqBool(e.IsSig), core.CoqList(rs), core.CoqList(pe), tg, c.pkg, c.pos(e.pos), core.CoqList(as))
 	case "lit":
 		return fmt.Sprintf("(EFuncLit %d %s)", e.F, c.alt(e))
 	}
@@ -426,12 +488,12 @@ func (c *coqEmitter) stmts(ss []*Stmt) string {
 					ls = append(ls, "LOther")
 				}
 			}
-			out = append(out, fmt.Sprintf("SAssign (mk_assign %d %s %s)", s.pos, core.CoqList(ls), c.exprs(s.Rhs)))
+			out = append(out, fmt.Sprintf("SAssign (mk_assign %d %s %s)", c.pos(s.pos), core.CoqList(ls), c.exprs(s.Rhs)))
 		case "return":
 			if s.Bare {
-				out = append(out, fmt.Sprintf("SReturn %d None", s.end))
+				out = append(out, fmt.Sprintf("SReturn %d None", c.pos(s.end)))
 			} else {
-				out = append(out, fmt.Sprintf("SReturn %d (Some %s)", s.end, c.exprs(s.Rhs)))
+				out = append(out, fmt.Sprintf("SReturn %d (Some %s)", c.pos(s.end), c.exprs(s.Rhs)))
 			}
 		case "group":
 			var bs []string
